@@ -55,6 +55,11 @@ impl<R: Read + Seek> ReadBox<&mut R> for DinfBox {
                 ));
             }
 
+            // Break if size zero BoxHeader, which can result in dead-loop.
+            if s == 0 {
+                break;
+            }
+
             match name {
                 BoxType::DrefBox => {
                     dref = Some(DrefBox::read_box(reader, s)?);
@@ -165,6 +170,11 @@ impl<R: Read + Seek> ReadBox<&mut R> for DrefBox {
                 return Err(Error::InvalidData(
                     "dinf box contains a box with a larger size than it",
                 ));
+            }
+
+            // Break if size zero BoxHeader, which can result in dead-loop.
+            if s == 0 {
+                break;
             }
 
             match name {
